@@ -19,6 +19,10 @@ OPT_NOTE = ("optimiser model (coq/model/Optimiser.v) replayed bit-for-bit agains
             "MCOptimiser::optimise_state on scripted and real states")
 
 PROPS = {
+    "C03": dict(props_file="props/C03.v", engines=[("geom", dict(quick=[("C03", 8000)], thorough=[("C03", 400000)]))],
+                design="DESIGN.md section 4 C03"),
+    "C13": dict(props_file="props/C13.v", engines=[("geom", dict(quick=[("C13", 20000)], thorough=[("C13", 2000000)]))],
+                design="DESIGN.md section 4 C13"),
     "C01": dict(props_file="props/C01.v", engines=[("geom", dict(quick=[("C01", 20000)], thorough=[("C01", 1500000), ("C01a", 300000)]))],
                 design="DESIGN.md section 4 C01"),
     "C12": dict(props_file="props/C12.v", engines=[("geom", dict(quick=[("C12", 30000)], thorough=[("C12", 2000000)]))],
